@@ -151,6 +151,11 @@ def option_vector(rng):
              force=rng.choice([0, 0, 0, 1]))
     if rng.random() < 0.03:
         o['encoding'] = b'no-such-encoding-xyz'
+    # bytes beyond the ASCII / C1 range the option is documented for: they must at least do no harm
+    if rng.random() < 0.12:
+        o['ws'] = rng.choice([b'\xa0', b'\xc2\xa0', b'\x0b\xff', bytes(rng.sample(range(0xa0, 0x100), 6)), bytes(range(0xa0, 0x100))])
+    if rng.random() < 0.12:
+        o['eol'] = rng.choice([b'\xa0', b'\xe2\x80\xa8', b'\x0c\xfe', bytes(rng.sample(range(0xa0, 0x100), 6)), bytes(range(0xa0, 0x100))])
     return o
 
 
